@@ -916,7 +916,29 @@ def ob_dispatch():
             raise Violation("dispatch:" + label, "%s (base: any curve point, scalar: any %d-bit value) does not go straight to multiply_wnaf/multiply_doubleadd of "
                             "that width on its own operands; it calls %r (the 256-bit G1/G2 multiply uses the order-r eigenvalue and is only [k]P on the order-r subgroup)"
                             % (label, bits, [c[0][:80] for c in real]), {"calls": [c[0] for c in real]})
-    return {"queries": len(want) + len(wide), "paths": len(want) + len(wide), "functions": fns, "sample": "static dispatch of the 256-bit and of the cofactor-width entry points"}
+    # 256-bit entry points with an affine base: from_affine into a local, then the eigenvalue method on that local with the caller's scalar
+    naff = 0
+    for grp, method in (("G1", "multiply_endomorphism("), ("G2", "multiply_frobenius(")):
+        rx = B + grp + r"::multiply\(" + B + grp + r"Affine const&, " + CORE + r"BigInt<256> const&\)"
+        cands = [n for n in P.find(rx) if not P.fn[n].is_decl]
+        if len(cands) != 1:
+            raise Inconclusive("%s::multiply(affine, BigInt<256>): %d definitions" % (grp, len(cands)))
+        I = eir.Interp(P)
+        calls = []
+        I.add_intercept(r"(?!llvm\.|memcpy|memmove|memset).*", lambda I_, name, args, site, calls=calls: calls.append((I_.prog.demangled.get(name, name), list(args))), "callee")
+        args = [Ptr(Obj("arg%d" % i, 1024, "arg", 16), 0) for i in range(3)]
+        I.call_function(P.fn[cands[0]], list(args))
+        fns.append(P.demangled[cands[0]][:90])
+        naff += 1
+
+        def same(x, y):
+            return isinstance(x, Ptr) and isinstance(y, Ptr) and x.obj is y.obj and x.off == y.off
+        ok = (len(calls) == 2 and "::from_affine<" in calls[0][0] and same(calls[0][1][1], args[1]) and calls[0][1][0].obj.kind == "alloca"
+              and method in calls[1][0] and "BigInt<256> const&)" in calls[1][0] and same(calls[1][1][0], args[0]) and same(calls[1][1][1], calls[0][1][0]) and same(calls[1][1][2], args[2]))
+        if not ok:
+            raise Violation("dispatch:%s::multiply(affine)" % grp, "%s::multiply(%sAffine, BigInt<256>) is not from_affine(local, base); %s local, scalar): %r"
+                            % (grp, grp, method, [c[0][:70] for c in calls]), {})
+    return {"queries": len(want) + len(wide) + naff, "paths": len(want) + len(wide) + naff, "functions": fns, "sample": "static dispatch of the 256-bit (projective and affine base) and of the cofactor-width entry points"}
 
 
 def ob_eigen():
